@@ -87,35 +87,8 @@ func flight0Parse(
 		return 0, &alert.Alert{Level: alert.Fatal, Description: alert.InsufficientSecurity}, dtlserrors.ErrCipherSuiteNoIntersection //nolint:lll
 	}
 
-	for _, val := range clientHello.Extensions {
-		switch ext := val.(type) {
-		case *extension.SupportedGroups:
-			if len(ext.Groups) == 0 {
-				return 0, &alert.Alert{Level: alert.Fatal, Description: alert.InsufficientSecurity}, dtlserrors.ErrNoSupportedEllipticCurves //nolint:lll
-			}
-			namedCurve, ok := selectEllipticCurve(cfg.EllipticCurves, ext.Groups)
-			if !ok {
-				return 0, &alert.Alert{Level: alert.Fatal, Description: alert.InsufficientSecurity}, dtlserrors.ErrNoSupportedEllipticCurves //nolint:lll
-			}
-			state.NamedCurve = namedCurve
-		case *extension12.ExtendedMasterSecret:
-			if cfg.ExtendedMasterSecret != dtlsconfig.DisableExtendedMasterSecret {
-				state.ExtendedMasterSecret = true
-			}
-		case *extension.ServerNameOffer:
-			state.ServerName = ext.ServerName // remote server name
-		case *extension12.RenegotiationInfo:
-			state.RemoteSupportsRenegotiation = true
-		case *extension.ALPNOffer:
-			state.PeerSupportedProtocols = slices.Clone(ext.Protocols)
-		case *extension.CertificateSignatureAlgorithms:
-			// Store the client's certificate signature schemes for later validation
-			state.RemoteCertSignatureSchemes = dtlsflight.SignatureSchemes(ext.Schemes)
-		}
-	}
-
-	if cfg.ExtendedMasterSecret == dtlsconfig.RequireExtendedMasterSecret && !state.ExtendedMasterSecret {
-		return 0, &alert.Alert{Level: alert.Fatal, Description: alert.InsufficientSecurity}, dtlserrors.ErrServerRequiredButNoClientEMS //nolint:lll
+	if dtlsAlert, err := applyClientHelloExtensions(state, cfg, clientHello); err != nil {
+		return 0, dtlsAlert, err
 	}
 
 	if state.LocalKeypair == nil {
@@ -168,6 +141,65 @@ func handleHelloResume(
 	}
 
 	return next, nil, nil
+}
+
+// applyClientHelloExtensions derives everything the server negotiates from a
+// ClientHello's extensions. It runs for the first ClientHello and again for the
+// one that echoes the cookie: only the latter is covered by the Finished
+// messages, so it is the one the negotiation has to be based on. Otherwise an
+// on-path attacker could strip or rewrite extensions of the first ClientHello
+// (extended master secret, groups, ALPN) and steer the handshake unnoticed.
+func applyClientHelloExtensions(
+	state *dtlsstate.State12,
+	cfg *dtlsconfig.HandshakeConfig,
+	clientHello *handshake.MessageClientHello,
+) (*alert.Alert, error) {
+	previousCurve := state.NamedCurve
+	state.ExtendedMasterSecret = false
+	state.ServerName = ""
+	state.PeerSupportedProtocols = nil
+	state.RemoteCertSignatureSchemes = nil
+	for _, val := range clientHello.Extensions {
+		switch ext := val.(type) {
+		case *extension.SupportedGroups:
+			if len(ext.Groups) == 0 {
+				return &alert.Alert{Level: alert.Fatal, Description: alert.InsufficientSecurity}, dtlserrors.ErrNoSupportedEllipticCurves //nolint:lll
+			}
+			namedCurve, ok := selectEllipticCurve(cfg.EllipticCurves, ext.Groups)
+			if !ok {
+				return &alert.Alert{Level: alert.Fatal, Description: alert.InsufficientSecurity}, dtlserrors.ErrNoSupportedEllipticCurves //nolint:lll
+			}
+			state.NamedCurve = namedCurve
+		case *extension12.ExtendedMasterSecret:
+			if cfg.ExtendedMasterSecret != dtlsconfig.DisableExtendedMasterSecret {
+				state.ExtendedMasterSecret = true
+			}
+		case *extension.ServerNameOffer:
+			state.ServerName = ext.ServerName // remote server name
+		case *extension12.RenegotiationInfo:
+			state.RemoteSupportsRenegotiation = true
+		case *extension.ALPNOffer:
+			state.PeerSupportedProtocols = slices.Clone(ext.Protocols)
+		case *extension.CertificateSignatureAlgorithms:
+			// Store the client's certificate signature schemes for later validation
+			state.RemoteCertSignatureSchemes = dtlsflight.SignatureSchemes(ext.Schemes)
+		}
+	}
+
+	if cfg.ExtendedMasterSecret == dtlsconfig.RequireExtendedMasterSecret && !state.ExtendedMasterSecret {
+		return &alert.Alert{Level: alert.Fatal, Description: alert.InsufficientSecurity}, dtlserrors.ErrServerRequiredButNoClientEMS //nolint:lll
+	}
+
+	if state.LocalKeypair != nil && state.NamedCurve != previousCurve {
+		// the key pair made for the first ClientHello is for another curve
+		var err error
+		state.LocalKeypair, err = elliptic.GenerateKeypair(state.NamedCurve)
+		if err != nil {
+			return &alert.Alert{Level: alert.Fatal, Description: alert.IllegalParameter}, err
+		}
+	}
+
+	return nil, nil
 }
 
 func flight0Generate(
